@@ -58,6 +58,9 @@ def run_c13(ctx):
         if b["what"] == "WriteErrorLost":
             ctx.notes.append("a write error was lost on the way out of the sshd worker (reported by the C05 check)")
             continue
+        if b["what"] == "LineDroppedUnderBackPressure":
+            ctx.notes.append("audit lines were dropped while the line channel was full (reported by the C15 check)")
+            continue
         if b["what"] == "LoginDropped":
             ctx.notes.append("a login blocked in the hand-off was dropped while the correlator was busy (reported by the C05 check)")
             continue
@@ -68,7 +71,7 @@ def run_c13(ctx):
                       "%s: worker %s cancelled after %d ms in state '%s' (channel capacity / login variant %d): returned=%s "
                       "after %d ms, deliveries after return=%d, error=%r" % (
                           b["what"], r["worker"], r.get("stall", 0), r["state"], r["cap"], r["returned"], r["ms"],
-                          r["late"], r["err"]),
+                          r["late"], r["err"]) + ((" - " + r["note"]) if r.get("note") else ""),
                       {"kind": "worker-scenario", "scenario": {"worker": r["worker"], "state": r["state"], "cap": r["cap"],
                                                                "stall": r.get("stall", 0)},
                        "observed": r})
@@ -202,6 +205,8 @@ def scenarios():
             out.append((c, "flood"))
         if c in ("sigterm", "sigint"):
             out.append((c, "unopened"))
+            # the events output does not exist (yet): the daemon is still waiting for it when the signal arrives
+            out.append((c, "nooutput"))
     return out
 
 
@@ -247,6 +252,8 @@ def run_daemon_scenario(ctx, binp, idx, cause, load):
         else:
             os.mkfifo(p)
     outpath = "/dev/full" if cause == "output-fails" else op
+    if load == "nooutput":
+        os.remove(op)
     outreader = None
     if cause in ("output-breaks-inflight", "output-breaks-staggered"):
         os.remove(op)
@@ -285,7 +292,7 @@ def run_daemon_scenario(ctx, binp, idx, cause, load):
             except subprocess.TimeoutExpired:
                 rec.update(exited=False, ms=8000)
             return rec
-        if load != "unopened":
+        if load not in ("unopened", "nooutput"):
             sw, aw = open_writer(sp), open_writer(ap)
             if sw is None or aw is None:
                 return rec
